@@ -1,12 +1,370 @@
-//! C07: harness module (stub — not built yet)
-#![allow(dead_code, unused_imports, unused_variables)]
+//! C07: one channel direction (`a.out --ch--> b.in`) inside a real des simulation.
+//!
+//! Script:
+//!   case <id> bitrate=<bit/s> lat=<ns> jit=<ns> drop=<drop|qinf|q<bytes>> seed=<n>
+//!   h <gap> <e|l|s> <tag>:<bodylen> <tag>:<bodylen> …
+//!       one handler of the sending module, `gap` ns after the previous handler (the first one
+//!       relative to t=0); inside it the listed messages are sent with `send(..)` back to back
+//!       (a burst).  Flag: `e` = the wake-up of this handler was scheduled *before* the sends of
+//!       the previous handler (so it is dispatched before a same-instant ChannelUnbusyNotif),
+//!       `l` = after them (dispatched after a same-instant unbusy), `s` = run inside
+//!       `at_sim_start` (only honoured for the first line with gap 0).
+//!       Messages are named by their tag (unique u64); message length = 64 + bodylen.
+//!
+//! Transcript: the script lines annotated with the absolute handler time, interleaved in
+//! dispatch order with `ev` lines (ignored when a transcript is fed back to `exec`):
+//!   ev obs   t= busy= tft= [qb= qp=]                       handler entry (sender)
+//!   ev offer t= tag= len= tx= started= busy= tft= [qb= qp=] one `send`; tx = calculate_busy(msg) read from
+//!                                                          the implementation; started = probe fired
+//!                                                          during the call; state after the call
+//!   ev deq   t= tag=                                       probe fired outside a `send` (unbusy path)
+//!   ev rx    t= tag= busy= tft= [qb= qp=]                  arrival at the receiving module
+//!   ev fin   t= busy= tft= [qb= qp=] err=<0|1>             after `run()` returned
+//! qb/qp (queued bytes / packets) come from the channel's `Debug` output, which shows them only
+//! while the channel is busy.
 use crate::rng::Rng;
 use crate::util::{cases, guarded, hval};
+use des::net::channel::ChannelProbe;
+use des::prelude::*;
+use std::fmt::Write;
+use std::sync::{Arc, Mutex};
 
-pub fn gen(_seed: u64, _count: usize, _thorough: bool) -> String {
-    String::new()
+const WAKE: u16 = 77;
+
+#[derive(Clone, Debug)]
+struct Pay {
+    tag: u64,
+    blen: usize,
+}
+impl MessageBody for Pay {
+    fn byte_len(&self) -> usize {
+        self.blen
+    }
 }
 
-pub fn exec(_input: &str) -> String {
-    String::new()
+#[derive(Clone, Debug)]
+struct HLine {
+    gap: u64,
+    flag: char,
+    sends: Vec<(u64, usize)>,
+}
+
+#[derive(Default)]
+struct Shared {
+    log: Vec<String>,
+    in_send: bool,
+    started_in_send: bool,
+    chan: Option<ChannelRef>,
+    handler_times: Vec<(usize, u128)>,
+}
+
+fn now_ns() -> u128 {
+    SimTime::now().as_nanos()
+}
+
+fn chan_state(ch: &ChannelRef) -> String {
+    let dbg = format!("{ch:?}");
+    let mut s = format!(
+        "busy={} tft={}",
+        ch.is_busy() as u8,
+        ch.transmission_finish_time().as_nanos()
+    );
+    if let Some(i) = dbg.find("bytes: ") {
+        let rest = &dbg[i + 7..];
+        let n: String = rest.chars().take_while(|c| c.is_ascii_digit()).collect();
+        write!(s, " qb={n}").unwrap();
+    }
+    if let Some(i) = dbg.find("packets: ") {
+        let rest = &dbg[i + 9..];
+        let n: String = rest.chars().take_while(|c| c.is_ascii_digit()).collect();
+        write!(s, " qp={n}").unwrap();
+    }
+    s
+}
+
+struct Probe(Arc<Mutex<Shared>>);
+impl ChannelProbe for Probe {
+    fn on_message_transmit(&mut self, _: &ChannelMetrics, msg: &Message) {
+        // NB: the channel's lock is held here: do not touch the channel
+        let tag = msg.try_content::<Pay>().map(|p| p.tag).unwrap_or(u64::MAX);
+        let mut sh = self.0.lock().unwrap();
+        if sh.in_send {
+            sh.started_in_send = true;
+        } else {
+            let t = now_ns();
+            sh.log.push(format!("ev deq t={t} tag={tag}"));
+        }
+    }
+}
+
+struct Sender {
+    sh: Arc<Mutex<Shared>>,
+    lines: Vec<HLine>,
+}
+
+impl Sender {
+    fn schedule(&self, idx: usize) {
+        if let Some(l) = self.lines.get(idx) {
+            schedule_in(
+                Message::default().kind(WAKE).with_content(idx as u64),
+                Duration::from_nanos(l.gap),
+            );
+        }
+    }
+
+    fn run_line(&mut self, idx: usize) {
+        let line = self.lines[idx].clone();
+        let ch = self.sh.lock().unwrap().chan.clone().expect("channel");
+        {
+            let mut sh = self.sh.lock().unwrap();
+            let t = now_ns();
+            sh.handler_times.push((idx, t));
+            let st = chan_state(&ch);
+            sh.log.push(format!("ev obs t={t} {st}"));
+        }
+        let next_early = self.lines.get(idx + 1).map(|l| l.flag == 'e').unwrap_or(false);
+        if next_early {
+            self.schedule(idx + 1);
+        }
+        for (tag, blen) in line.sends {
+            let msg = Message::default().kind(1).with_content(Pay { tag, blen });
+            let len = msg.length();
+            let tx = ch.calculate_busy(&msg).as_nanos();
+            {
+                let mut sh = self.sh.lock().unwrap();
+                sh.in_send = true;
+                sh.started_in_send = false;
+            }
+            send(msg, "out");
+            let mut sh = self.sh.lock().unwrap();
+            sh.in_send = false;
+            let started = sh.started_in_send as u8;
+            let t = now_ns();
+            let st = chan_state(&ch);
+            sh.log
+                .push(format!("ev offer t={t} tag={tag} len={len} tx={tx} started={started} {st}"));
+        }
+        if !next_early {
+            self.schedule(idx + 1);
+        }
+    }
+}
+
+impl Module for Sender {
+    fn at_sim_start(&mut self, _stage: usize) {
+        let ch = current().gate("out", 0).unwrap().channel().unwrap();
+        ch.attach_probe(Probe(self.sh.clone()));
+        self.sh.lock().unwrap().chan = Some(ch);
+        match self.lines.first() {
+            Some(l) if l.flag == 's' && l.gap == 0 => self.run_line(0),
+            Some(_) => self.schedule(0),
+            None => {}
+        }
+    }
+
+    fn handle_message(&mut self, msg: Message) {
+        if msg.header().kind == WAKE {
+            let idx = *msg.content::<u64>() as usize;
+            self.run_line(idx);
+        }
+    }
+}
+
+struct Receiver {
+    sh: Arc<Mutex<Shared>>,
+}
+
+impl Module for Receiver {
+    fn handle_message(&mut self, msg: Message) {
+        let tag = msg.try_content::<Pay>().map(|p| p.tag).unwrap_or(u64::MAX);
+        let mut sh = self.sh.lock().unwrap();
+        let t = now_ns();
+        let st = sh.chan.as_ref().map(chan_state).unwrap_or_default();
+        sh.log.push(format!("ev rx t={t} tag={tag} {st}"));
+    }
+}
+
+fn parse_drop(s: &str) -> ChannelDropBehaviour {
+    match s {
+        "drop" => ChannelDropBehaviour::Drop,
+        "qinf" => ChannelDropBehaviour::Queue(None),
+        _ => match s.strip_prefix('q').and_then(|v| v.parse::<usize>().ok()) {
+            Some(n) => ChannelDropBehaviour::Queue(Some(n)),
+            None => ChannelDropBehaviour::Drop,
+        },
+    }
+}
+
+fn parse_hline(line: &str) -> Option<HLine> {
+    let tok: Vec<&str> = line.split_whitespace().collect();
+    if tok.len() < 3 || tok[0] != "h" {
+        return None;
+    }
+    let gap: u64 = tok[1].parse().ok()?;
+    let flag = tok[2].chars().next()?;
+    let mut sends = Vec::new();
+    for t in &tok[3..] {
+        let mut it = t.split(':');
+        let tag: u64 = it.next()?.parse().ok()?;
+        let blen: usize = it.next()?.parse().ok()?;
+        sends.push((tag, blen));
+    }
+    Some(HLine { gap, flag, sends })
+}
+
+/// integer approximation of the transmission time (ns) of a message of `len` bytes
+fn tx_ns(len: u64, bitrate: u64) -> u64 {
+    if bitrate == 0 {
+        0
+    } else {
+        ((len as u128 * 8 * 1_000_000_000 + bitrate as u128 / 2) / bitrate as u128) as u64
+    }
+}
+
+pub fn exec(input: &str) -> String {
+    let mut out = String::new();
+    for (header, body) in cases(input) {
+        let bitrate: usize = hval(&header, "bitrate").and_then(|v| v.parse().ok()).unwrap_or(0);
+        let lat: u64 = hval(&header, "lat").and_then(|v| v.parse().ok()).unwrap_or(0);
+        let jit: u64 = hval(&header, "jit").and_then(|v| v.parse().ok()).unwrap_or(0);
+        let seed: u64 = hval(&header, "seed").and_then(|v| v.parse().ok()).unwrap_or(1);
+        let drop = parse_drop(&hval(&header, "drop").unwrap_or_else(|| "drop".into()));
+        writeln!(out, "{header}").unwrap();
+
+        let lines: Vec<HLine> = body.iter().filter_map(|l| parse_hline(l)).collect();
+        let raw: Vec<&String> = body.iter().filter(|l| parse_hline(l).is_some()).collect();
+        let sh = Arc::new(Mutex::new(Shared::default()));
+
+        // calendar-queue bucket width adapted to the time scale of the case (the real scan loop is
+        // linear in gap / width)
+        let scale = tx_ns(64, bitrate as u64).max(lat).max(jit).max(4);
+        let width = (scale / 4).max(1);
+
+        let sh2 = sh.clone();
+        let lines2 = lines.clone();
+        let res = guarded(move || {
+            let mut sim = Sim::new(());
+            sim.node("a", Sender { sh: sh2.clone(), lines: lines2 });
+            sim.node("b", Receiver { sh: sh2.clone() });
+            let g_out = sim.gate("a", "out");
+            let g_in = sim.gate("b", "in");
+            let channel = Channel::new(ChannelMetrics::new(
+                bitrate,
+                Duration::from_nanos(lat),
+                Duration::from_nanos(jit),
+                drop,
+            ));
+            g_out.connect(g_in, Some(channel));
+            let rt = Builder::seeded(seed)
+                .quiet()
+                .cqueue_options(64, Duration::from_nanos(width))
+                .build(sim.freeze());
+            match rt.run() {
+                Ok((_, t, _)) => (t.as_nanos(), 0u8),
+                Err(_) => (now_ns(), 1u8),
+            }
+        });
+        let (tfin, err) = match res {
+            Ok(v) => v,
+            Err(_) => (0, 2),
+        };
+        let mut shd = sh.lock().unwrap();
+        // annotated script lines first, then the event log in dispatch order
+        for (i, l) in raw.iter().enumerate() {
+            match shd.handler_times.iter().find(|h| h.0 == i) {
+                Some((_, t)) => writeln!(out, "{l} -> at={t}").unwrap(),
+                None => writeln!(out, "{l} -> never").unwrap(),
+            }
+        }
+        for l in &shd.log {
+            writeln!(out, "{l}").unwrap();
+        }
+        let st = shd.chan.as_ref().map(chan_state).unwrap_or_else(|| "busy=0 tft=0".into());
+        writeln!(out, "ev fin t={tfin} {st} err={err}").unwrap();
+        writeln!(out, "end").unwrap();
+        // break the cycle channel -> probe -> shared state -> channel
+        shd.chan = None;
+    }
+    out
+}
+
+const BITRATES: [u64; 7] = [0, 1, 8, 1_000, 1_000_000, 1_000_000_000_000, 2_000_000_000_000];
+const LATS: [u64; 6] = [0, 1, 1_000, 1_000_000, 100_000_000, 1_000_000_000];
+const JITS: [u64; 6] = [0, 0, 1, 1_000, 1_000_000, 50_000_000];
+const BODIES: [u64; 9] = [0, 1, 64, 448, 512, 936, 1_000, 65_472, 999_936];
+
+pub fn gen(seed: u64, count: usize, thorough: bool) -> String {
+    let mut r = Rng::new(seed);
+    let mut out = String::new();
+    for k in 0..count {
+        let bitrate = *r.pick(&BITRATES);
+        let lat = *r.pick(&LATS);
+        let jit = if r.chance(1, 2) { 0 } else { *r.pick(&JITS) };
+        // base body length of the case; most messages use it
+        let base = if bitrate >= 1_000_000_000_000 && r.chance(1, 2) {
+            *r.pick(&[0u64, 999_936, 65_472, 512])
+        } else {
+            *r.pick(&BODIES[..7])
+        };
+        let blen = 64 + base;
+        let drop = match r.below(8) {
+            0 | 1 => "drop".to_string(),
+            2 | 3 => "qinf".to_string(),
+            4 => "q0".to_string(),
+            _ => {
+                let kk = r.range(1, 3);
+                let d = r.below(3) as i64 - 1;
+                format!("q{}", (kk * blen) as i64 + d)
+            }
+        };
+        let t = tx_ns(blen, bitrate);
+        writeln!(out, "case {k} bitrate={bitrate} lat={lat} jit={jit} drop={drop} seed={}", r.below(1000)).unwrap();
+        let nh = if thorough { r.range(1, 14) } else { r.range(1, 7) };
+        let mut tag = 0u64;
+        for i in 0..nh {
+            // gaps around multiples of the transmission time: <, =, > and far apart
+            let gap = match r.below(12) {
+                0 => 0,
+                1 | 2 => t,
+                3 => t.saturating_sub(1),
+                4 => t + 1,
+                5 => t / 2,
+                6 => t * r.range(2, 3),
+                7 => (t * r.range(2, 3) + r.below(3)).saturating_sub(1),
+                8 => r.below(4),
+                9 => t + lat,
+                10 => t * r.range(1, 6) + lat + jit,
+                _ => t.saturating_mul(r.range(0, 4)) / 3,
+            };
+            let flag = if i == 0 && r.chance(1, 3) {
+                's'
+            } else if r.chance(1, 2) {
+                'e'
+            } else {
+                'l'
+            };
+            let gap = if flag == 's' { 0 } else { gap };
+            let ns = match r.below(8) {
+                0 => 0,
+                1 | 2 | 3 => 1,
+                4 | 5 => r.range(2, 3),
+                _ => r.range(3, 6),
+            };
+            write!(out, "h {gap} {flag}").unwrap();
+            for _ in 0..ns {
+                tag += 1;
+                let b = if r.chance(3, 4) {
+                    base
+                } else if bitrate >= 1_000_000_000_000 {
+                    *r.pick(&[0u64, 0, 64, 999_936, 65_472])
+                } else {
+                    *r.pick(&BODIES[..7])
+                };
+                write!(out, " {tag}:{b}").unwrap();
+            }
+            writeln!(out).unwrap();
+        }
+        writeln!(out, "end").unwrap();
+    }
+    out
 }
